@@ -31,11 +31,13 @@ class Case:
         return hashlib.sha256(canon([self.sdl, self.text, self.op_name, self.variables]).encode()).hexdigest()[:16]
 
 
-def gen_case(tape, schema_knobs=None, doc_knobs=None, vars_knobs=None):
+def gen_case(tape, schema_knobs=None, doc_knobs=None, vars_knobs=None, doc_post=None):
     c = Case()
     c.schema = gen_schema(tape, schema_knobs)
     c.sdl = print_sdl(c.schema)
     c.doc = gen_document(c.schema, tape, doc_knobs)
+    if doc_post is not None:
+        doc_post(c.doc, tape)
     if tape.preset and "@doc" in tape.preset:
         # an explicit (minimised) document model recorded in a replay file replaces the generated one
         from simv.model.document import doc_from_json
